@@ -221,80 +221,123 @@ func (w *world) Run(t *rt.Tape, trace bool) *core.Result {
 			}
 		}
 		isROT := kind == kROT || kind == kROTMal
-		wires := make([][]ot.Wire, nb)
-		choices := make([][]bool, nb)
-		got := make([][]ot.Label, nb)
-		for i, n := range batches {
-			wires[i] = make([]ot.Wire, n)
-			if !isROT {
-				for j := range wires[i] {
-					wires[i][j].L0, _ = ot.NewLabel(rH)
-					wires[i][j].L1, _ = ot.NewLabel(rH)
+		// One case in four: the two processes run a second, independent OT session of the same
+		// kind at the same time (a server with two clients): own connection, own OT objects, own
+		// randomness streams. Whatever the implementation keeps outside its objects is shared.
+		nsess := 1
+		if t.Choose(rt.SGen, 4) == 0 {
+			nsess = 2
+			smp.Scenario += " (two sessions at the same time in the same two processes)"
+		}
+		type session struct {
+			batches      []int
+			wires        [][]ot.Wire
+			choices      [][]bool
+			got          [][]ot.Label
+			sDone, rDone bool
+		}
+		sess := make([]*session, nsess)
+		for k := range sess {
+			ss := &session{batches: batches}
+			if k > 0 {
+				ss.batches = nil
+				for i := 0; i < 1+t.Choose(rt.SGen, 3); i++ {
+					ss.batches = append(ss.batches, drawSize(t, maxN))
 				}
+				smp.Batches = append(append([]int{}, batches...), ss.batches...)
 			}
-			choices[i] = drawChoices(t, n, rH)
-			got[i] = make([]ot.Label, n)
+			n := len(ss.batches)
+			ss.wires, ss.choices, ss.got = make([][]ot.Wire, n), make([][]bool, n), make([][]ot.Label, n)
+			for i, n := range ss.batches {
+				ss.wires[i] = make([]ot.Wire, n)
+				if !isROT {
+					for j := range ss.wires[i] {
+						ss.wires[i][j].L0, _ = ot.NewLabel(rH)
+						ss.wires[i][j].L1, _ = ot.NewLabel(rH)
+					}
+				}
+				ss.choices[i] = drawChoices(t, n, rH)
+				ss.got[i] = make([]ot.Label, n)
+			}
+			sess[k] = ss
 		}
 		reinit := shared && kind >= kCOT && t.Choose(rt.SGen, 2) == 1
 		body = func() {
-			l := mk()
-			rt.GoParty("S", "sender", func() {
-				o := mkOT(rS)
-				if err := o.InitSender(l.s); err != nil {
-					fail("sender-error", "InitSender: "+err.Error())
-					return
+			for k, ss := range sess {
+				k, ss := k, ss
+				l := mk()
+				rSk, rRk := rS, rR
+				if k > 0 {
+					rSk, rRk = simrand.Stream("S2"), simrand.Stream("R2")
 				}
-				for i := range batches {
-					if reinit && i > 0 {
-						if err := o.InitSender(l.s); err != nil {
-							fail("sender-error", fmt.Sprintf("repeated InitSender on a shared instance: %v", err))
+				rt.GoParty("S", fmt.Sprintf("sender%d", k), func() {
+					o := mkOT(rSk)
+					if err := o.InitSender(l.s); err != nil {
+						fail("sender-error", "InitSender: "+err.Error())
+						return
+					}
+					for i := range ss.batches {
+						if reinit && i > 0 {
+							if err := o.InitSender(l.s); err != nil {
+								fail("sender-error", fmt.Sprintf("repeated InitSender on a shared instance: %v", err))
+								return
+							}
+						}
+						if err := o.Send(ss.wires[i]); err != nil {
+							fail("sender-error", fmt.Sprintf("session %d: Send batch %d (n=%d): %v", k, i, ss.batches[i], err))
 							return
 						}
 					}
-					if err := o.Send(wires[i]); err != nil {
-						fail("sender-error", fmt.Sprintf("Send batch %d (n=%d): %v", i, batches[i], err))
+					ss.sDone = true
+					sDone = true
+					for _, x := range sess {
+						sDone = sDone && x.sDone
+					}
+					l.closeS()
+				})
+				rt.GoParty("R", fmt.Sprintf("receiver%d", k), func() {
+					o := mkOT(rRk)
+					if err := o.InitReceiver(l.r); err != nil {
+						fail("receiver-error", "InitReceiver: "+err.Error())
 						return
 					}
-				}
-				sDone = true
-				l.closeS()
-			})
-			rt.GoParty("R", "receiver", func() {
-				o := mkOT(rR)
-				if err := o.InitReceiver(l.r); err != nil {
-					fail("receiver-error", "InitReceiver: "+err.Error())
-					return
-				}
-				for i := range batches {
-					if reinit && i > 0 {
-						if err := o.InitReceiver(l.r); err != nil {
-							fail("receiver-error", fmt.Sprintf("repeated InitReceiver on a shared instance: %v", err))
+					for i := range ss.batches {
+						if reinit && i > 0 {
+							if err := o.InitReceiver(l.r); err != nil {
+								fail("receiver-error", fmt.Sprintf("repeated InitReceiver on a shared instance: %v", err))
+								return
+							}
+						}
+						if err := o.Receive(ss.choices[i], ss.got[i]); err != nil {
+							fail("receiver-error", fmt.Sprintf("session %d: Receive batch %d (n=%d): %v", k, i, ss.batches[i], err))
 							return
 						}
 					}
-					if err := o.Receive(choices[i], got[i]); err != nil {
-						fail("receiver-error", fmt.Sprintf("Receive batch %d (n=%d): %v", i, batches[i], err))
-						return
+					ss.rDone = true
+					rDone = true
+					for _, x := range sess {
+						rDone = rDone && x.rDone
 					}
-				}
-				rDone = true
-				l.closeR()
-			})
+					l.closeR()
+				})
+			}
 		}
 		defer func() {
 			if failure != nil || !sDone || !rDone {
 				return
 			}
-			for i := range batches {
-				for j := range got[i] {
-					want := wires[i][j].L0
-					if choices[i][j] {
-						want = wires[i][j].L1
-					}
-					if !got[i][j].Equal(want) {
-						failure = &core.Failure{Clause: "wrong-label", Detail: fmt.Sprintf("%s batch %d of %v position %d/%d choice=%v: receiver has %v, sender's chosen label is %v", kindNames[kind], i, batches, j, batches[i], choices[i][j], got[i][j], want)}
-						res.Fail = failure
-						return
+			for k, ss := range sess {
+				for i := range ss.batches {
+					for j := range ss.got[i] {
+						want := ss.wires[i][j].L0
+						if ss.choices[i][j] {
+							want = ss.wires[i][j].L1
+						}
+						if !ss.got[i][j].Equal(want) {
+							failure = &core.Failure{Clause: "wrong-label", Detail: fmt.Sprintf("%s session %d of %d, batch %d of %v position %d/%d choice=%v: receiver has %v, sender's chosen label is %v", kindNames[kind], k, nsess, i, ss.batches, j, ss.batches[i], ss.choices[i][j], ss.got[i][j], want)}
+							res.Fail = failure
+							return
+						}
 					}
 				}
 			}
